@@ -25,6 +25,30 @@ func pqStreamK1(rep *Report, m *model.Client, e *pqengine.Engine, what string) {
 	if e.Queue == nil || e.File == nil {
 		return
 	}
+	// the page headers as the writer maintains them (Model/PQAck.v): the events starting in consecutive pages
+	// have consecutive ids, the last one is the event before the tail id
+	if cs, cerr := e.Chain(); cerr == nil && len(cs.Pages) > 0 {
+		rep.count("k1:page-header-chains", 1)
+		var prev uint64
+		seen := false
+		for k, pg := range cs.Pages {
+			if pg.Off == 0 {
+				continue
+			}
+			if pg.Last < pg.First || (seen && pg.First != prev+1) {
+				rep.violate(Violation{Kind: "oracle", Sig: "pq-page-headers/first-last-ids-not-consecutive",
+					Detail: fmt.Sprintf("%s: page %d (chain index %d) says first=%d last=%d, the previous page with events ends with id %d; headers (id first last off): %v", what, pg.ID, k, pg.First, pg.Last, prev, cs.Pages),
+					Replay: pqReplay{Config: e.Cfg, Log: tailLog(e.Log, 300), Mode: "page-headers"}})
+				break
+			}
+			prev, seen = pg.Last, true
+		}
+		if seen && prev+1 != cs.TailID {
+			rep.violate(Violation{Kind: "oracle", Sig: "pq-page-headers/last-id-vs-tail",
+				Detail: fmt.Sprintf("%s: the last event id in the page headers is %d, the tail id of the queue root %d", what, prev, cs.TailID),
+				Replay: pqReplay{Config: e.Cfg, Log: tailLog(e.Log, 300), Mode: "page-headers"}})
+		}
+	}
 	stream, payload, pos, n, _, err := e.RawStream()
 	if err != nil {
 		e.Fail("%s: walking the page chain failed: %v", what, err)
@@ -127,6 +151,16 @@ func pqReaderK1(rep *Report, m *model.Client, e *pqengine.Engine, r *rand.Rand) 
 		rep.violate(Violation{Kind: "correspondence", Sig: "pq-reader/model-state-machine-vs-reader",
 			Detail: fmt.Sprintf("call #%d (%s) of %s: model reader says %s, the implementation %s (P=%d, start=%d, %d events)", i, ops[minInt(i, len(ops)-1)], trunc(strings.Join(ops, " "), 200), ma, mb, payload, pos, n),
 			Replay: pqReplay{Config: e.Cfg, Log: tailLog(e.Log, 400), Mode: "reader-k1"}})
+	}
+}
+
+// pqAckChecks: the ACK hook of the queue campaigns: page decisions vs. the Coq model, and the persisted read
+// position: parsing the real page chain from it must give exactly the un-ACKed events
+func pqAckChecks(rep *Report, m *model.Client) func(e *pqengine.Engine, n int, before, after pqengine.ChainState) {
+	k1 := pqAckK1(rep, m)
+	return func(e *pqengine.Engine, n int, before, after pqengine.ChainState) {
+		k1(e, n, before, after)
+		pqStreamK1(rep, m, e, fmt.Sprintf("after ACK(%d)", n))
 	}
 }
 
@@ -293,6 +327,9 @@ func pqCrashHistory(rep *Report, m *model.Client, cfg pqengine.Config, ops []pqe
 	if err != nil {
 		return
 	}
+	if only == nil {
+		e.AckHook = pqAckChecks(rep, m)
+	}
 	for _, op := range ops {
 		if e.Queue == nil {
 			break
@@ -429,7 +466,7 @@ func c12Cycle(rep *Report, cfg pqengine.Config, hseed int64, cycles int, tight b
 		}
 	}
 	if ackModel != nil {
-		e.AckHook = pqAckK1(rep, ackModel)
+		e.AckHook = pqAckChecks(rep, ackModel)
 	}
 	checkSpace := func(what string) {
 		if e.File == nil {
@@ -782,7 +819,7 @@ func init() {
 		}
 		defer m.Close()
 		r := rand.New(rand.NewSource(f.seed))
-		n, cycles := 36, 8
+		n, cycles := 60, 8
 		if f.tier == "thorough" {
 			n, cycles = 300, 60
 		}
@@ -790,6 +827,8 @@ func init() {
 			n = f.n
 		}
 		cfgs := []pqengine.Config{
+			{PageSize: 4096, MaxSize: 16 * 4096, WriteBuffer: 0}, {PageSize: 4096, MaxSize: 17 * 4096, WriteBuffer: 0},
+			{PageSize: 4096, MaxSize: 23 * 4096, WriteBuffer: 32 * 1024}, {PageSize: 4096, MaxSize: 24 * 4096, WriteBuffer: 32 * 1024},
 			{PageSize: 1024, MaxSize: 64 * 1024, WriteBuffer: 0}, {PageSize: 1024, MaxSize: 96 * 1024, WriteBuffer: 4096},
 			{PageSize: 1024, MaxSize: 128 * 1024, WriteBuffer: 16 * 1024}, {PageSize: 4096, MaxSize: 512 * 1024, WriteBuffer: 0},
 			{PageSize: 1024, MaxSize: 256 * 1024, WriteBuffer: 8192}, {PageSize: 1024, MaxSize: 0, WriteBuffer: 2048},
